@@ -31,7 +31,7 @@ static void roundtrip(long id, int T, const std::vector<u8_t> &P, int cm, int hm
     else
       ev.i("same_again", 1);
     ev.emit(wv_out); },
-                       8, &detail);
+                       20, &detail);
   if (how != 0)
     ++n_aborts;
   if (how != 0)
